@@ -6,10 +6,11 @@ declare -A NEAR=(
  [B5]="C12 C13 C17" [B6]="C17 C20 C14" [B7]="C05 C03 C14" [B8]="C04 C08 C09 C10"
  [B9]="C15 C14" [B10]="C19 C07 C03" [B11]="C13 C08 C17 C12 C03" [B12]="C11 C01 C02 C03 C16"
  [B13]="C18 C17 C10" [B14]="C07 C14" [B15]="C10 C08 C09 C05 C18" [B16]="C20 C15 C05 C04 C14" [B17]="C19 C03 C14 C08 C09 C18" [B18]="C17 C12 C13" [B19]="C13 C08 C09" [B20]="C14 C15 C05 C06 C03" [B22]="C12 C06 C03 C01 C02 C11"
+ [B23]="C03 C14 C17 C08 C09" [B24]="C17 C20 C12" [B25]="C07 C03 C14" [B27]="C04 C18 C09 C08 C03 C06" [B28]="C13 C08 C09 C17" [B29]="C05 C03 C14" [B30]="C12 C13 C17 C03"
 )
 IDS=("$@"); [ ${#IDS[@]} -eq 0 ] && IDS=($(ls /verif/benign | sort -V))
 WORK=/tmp/bmatrixT; rm -rf $WORK; mkdir -p $WORK
-rsync -a --exclude .git --exclude replays --exclude evidence /verif/ $WORK/verif/; mkdir -p $WORK/verif/evidence $WORK/verif/replays
+mkdir -p $WORK/verif && git -C /verif archive HEAD | tar -x -C $WORK/verif; mkdir -p $WORK/verif/evidence $WORK/verif/replays
 source /verif/bin/env.sh
 for S in "${IDS[@]}"; do
   D=/verif/benign/$S; WT=$WORK/wt-$S
